@@ -147,7 +147,7 @@ def run(ctx, chk):
         first = min(rnd, key=lambda e: e.seq)
         cond = cn.conj(tuple(c for c in sd.pc if c[0] != "fact"))
         arg_ok = len(sd.data["args"]) == 1 and sd.data["args"][0] == ("param", "seed")
-        ok = first is sd and f_equiv(cond, f_not(A("None is seed"))) and arg_ok and sd.depth == 0
+        ok = first is sd and f_equiv(cond, f_not(A("None is seed"))) and arg_ok
         detail = f"first np.random call: {first.data['fname']} at {first.loc}; seed call under " \
                  f"{f_show(cond)} with argument {cn.show(sd.data['args'][0]) if sd.data['args'] else None}"
     chk.ob("C14.seed-first", "generate: np.random.seed(seed), under `seed is not None`, precedes "
